@@ -23,8 +23,8 @@ LEVEL = "proof"
 # stream is NOT included; C08 claims the translator's C08_gen_* THEOREM FILES directly (Props/W4C08.v, W4C08b.v, W4C08c.v in THEOREM_FILES / COQ_TARGETS).
 INCLUDE = ['w4gen']   # wave 4 (lead, integration): differential stream + laws of the ktensor / sptensor methods the translator generates (Gen/GenKtensor4*.v, GenSptensor4*.v)
 GEN_UNITS = ["GenMethods3", "GenKtensor4", "GenKtensor4b"]     # Props/C08d.v: redistribute over the GENERATED ktensor_redistribute; Props/C08f.v: arrange (absorb branch); Props/C08g.v: update
-COQ_TARGETS = ["Props/W4C08.vo", "Props/W4C08b.vo", "Props/W4C08c.vo", "Props/C08.vo", "Props/C08b.vo", "Props/C08c.vo", "Props/C08d.vo", "Props/C08e.vo", "Props/C08f.vo", "Props/C08g.vo", "Props/C08h.vo", "Props/C08i.vo", "Props/C08j.vo", "Model/C08Update.vo", "Proofs/C08Gen3.vo", "Props/W4C08d.vo", "Model/C08Inst4.vo", "Proofs/C08Gen.vo", "Model/C08Inst.vo", "Model/C08Inst2.vo", "Model/C08Inst3.vo", "Model/Harness.vo"]
-THEOREM_FILES = ["Props/C08.v", "Props/C08b.v", "Props/C08c.v", "Props/C08d.v", "Props/C08e.v", "Props/C08f.v", "Props/C08g.v", "Props/C08h.v", "Props/C08i.v", "Props/C08j.v",
+COQ_TARGETS = ["Props/W4C08.vo", "Props/W4C08b.vo", "Props/W4C08c.vo", "Props/C08.vo", "Props/C08b.vo", "Props/C08c.vo", "Props/C08d.vo", "Props/C08e.vo", "Props/C08f.vo", "Props/C08g.vo", "Props/C08h.vo", "Props/C08i.vo", "Props/C08j.vo", "Props/C08k.vo", "Model/C08Update.vo", "Proofs/C08Gen3.vo", "Props/W4C08d.vo", "Model/C08Inst4.vo", "Proofs/C08Gen.vo", "Model/C08Inst.vo", "Model/C08Inst2.vo", "Model/C08Inst3.vo", "Model/Harness.vo"]
+THEOREM_FILES = ["Props/C08.v", "Props/C08b.v", "Props/C08c.v", "Props/C08d.v", "Props/C08e.v", "Props/C08f.v", "Props/C08g.v", "Props/C08h.v", "Props/C08i.v", "Props/C08j.v", "Props/C08k.v",
                  "Props/W4C08.v", "Props/W4C08b.v", "Props/W4C08c.v", "Props/W4C08d.v"]   # w4-translator: C08_gen_permute_* / _extract_* / _arrange_* / _tovec_* / _update_* (Gen/GenKtensor4.v), C08_gen_from_vector_* (Gen/GenKtensor4b.v)
 COQ_IMPORTS = ("From Coq Require Import List ZArith QArith Qcanon Bool.\n"
                "From PV Require Import Base.Index Base.Perm Model.Repr Model.Harness Model.C08Kruskal Model.C08Inst Model.C08More Model.C08Inst2 Model.C08Loop Model.C08Inst3 Model.C08Loop2 Model.C08Inst4 Model.C08Update Proofs.C08Gen Proofs.C08Gen3.\n")
